@@ -58,25 +58,33 @@ type c16State struct {
 	sep          string // separator constant searched by NewVerificationRequest
 	sepKnown     bool
 	verifiers    map[*ssa.Function]bool // functions outside jsonsign returning a verified request
+	errField     string                 // error-typed field that Verify is known to leave non-nil whenever it returns an error ("" if not established)
 }
 
 func runC16(p *Program, r *Reporter) {
+	// helpers.go memoises per-Alloc facts in a process-global map; across selftest
+	// mutants that map keeps every earlier Program alive (~3 GB each). It is only
+	// a memo, so dropping it is harmless.
+	plainVarCache = map[*ssa.Alloc]bool{}
 	s := &c16State{p: p, r: r, vrT: p.NamedType(c16Pkg, "VerifyRequest"), verifiers: map[*ssa.Function]bool{}}
 	s.ix = c16BuildIndex(p, s.vrT)
 	r.Analysed("functions", len(p.AllFuncs))
 	s.ruleChain()
+	s.findErrChannel()
 	s.ruleVerifySignature()
 	s.ruleKeyWriters()
 	s.ruleSignerAndPayloadWriters()
 	s.ruleSigWriters()
 	s.ruleSignerKeyID()
 	s.ruleSplit()
-	r.Floor("J-verify", 22)
+	s.ruleHashGuard()
+	r.Floor("J-verify", 23)
 	s.ruleVerifiers()
 	s.ruleCallers()
 	s.ruleReads()
 	s.ruleSignedTypes()
-	r.Floor("J-index", 15)
+	s.ruleVerifyCallers()
+	r.Floor("J-index", 17)
 	s.ruleSign()
 	r.Floor("J-sign", 4)
 }
@@ -557,6 +565,115 @@ func (s *c16State) ruleChain() {
 				fmt.Sprintf("%s writes %v, which %s reads; every call of %s is preceded by %s", a, fs, b, b, a), bad)
 		}
 	}
+}
+
+// findErrChannel establishes (without emitting an obligation) whether Verify
+// mirrors a non-nil error result into an error-typed field of the request: a
+// literal deferred before the first step stores the named error result into
+// that field under the fact "result != nil". Callers may then test that field
+// instead of the error result.
+func (s *c16State) findErrChannel() {
+	verify := s.verifyFn()
+	recv := ssa.Value(verify.Params[0])
+	var firstStep ssa.Instruction
+	for _, c := range CallsIn(verify, false) {
+		if f := c.Callee(); f != nil && s.vrRecv(f) != nil && c.Value() != nil && firstStep == nil {
+			firstStep = c.Instr
+		}
+	}
+	for _, d := range DeferredCalls(verify) {
+		lit := ClosureOf(d)
+		if lit == nil || firstStep == nil || !Precedes(d.Instr, firstStep) {
+			continue
+		}
+		for _, b := range lit.Blocks {
+			for _, in := range b.Instrs {
+				st, ok := in.(*ssa.Store)
+				if !ok {
+					continue
+				}
+				fa, ok := st.Addr.(*ssa.FieldAddr)
+				if !ok || NamedOf(fa.X.Type()) != s.vrT || originValue(fa.X) != recv || !isErrorType(st.Val.Type()) {
+					continue
+				}
+				ld, ok := st.Val.(*ssa.UnOp)
+				if !ok || ld.Op != token.MUL {
+					continue
+				}
+				cell, ok := varOf(ld.X)
+				al, isAl := cell.(*ssa.Alloc)
+				if !ok || !isAl || al.Parent() != verify {
+					continue
+				}
+				// the cell is Verify's error result variable: every return loads it
+				isResult := false
+				for _, rb := range verify.Blocks {
+					if ret, ok := c16Last(rb).(*ssa.Return); ok && len(ret.Results) > 0 {
+						if rl, ok := ret.Results[len(ret.Results)-1].(*ssa.UnOp); ok && rl.X == ssa.Value(al) {
+							isResult = true
+						}
+					}
+				}
+				// under "result != nil"
+				nonNil := false
+				for _, f := range FactsAt(b) {
+					if bo, ok := f.Cond.(*ssa.BinOp); ok && (bo.Op == token.NEQ) == f.Val && (bo.Op == token.NEQ || bo.Op == token.EQL) {
+						var o ssa.Value
+						if IsNilConst(bo.Y) {
+							o = bo.X
+						} else if IsNilConst(bo.X) {
+							o = bo.Y
+						}
+						if ol, ok := o.(*ssa.UnOp); ok && ol.Op == token.MUL {
+							if c2, ok := varOf(ol.X); ok && c2 == cell {
+								nonNil = true
+							}
+						}
+					}
+				}
+				if isResult && nonNil {
+					s.errField = fieldName(fa.X.Type(), fa.Field)
+				}
+			}
+		}
+	}
+}
+
+// errFieldNilAt: a dominating branch at instruction at found the request's
+// mirrored error field nil, on a load made after call c.
+func (s *c16State) errFieldNilAt(v ssa.Value, c *ssa.Call, at ssa.Instruction) bool {
+	if s.errField == "" || !Precedes(c, at) {
+		return false
+	}
+	for _, f := range FactsAt(at.Block()) {
+		bo, ok := f.Cond.(*ssa.BinOp)
+		if !ok || (bo.Op != token.EQL && bo.Op != token.NEQ) {
+			continue
+		}
+		var o ssa.Value
+		if IsNilConst(bo.Y) {
+			o = bo.X
+		} else if IsNilConst(bo.X) {
+			o = bo.Y
+		} else {
+			continue
+		}
+		if (bo.Op == token.EQL) != f.Val {
+			continue // says non-nil
+		}
+		ld, ok := o.(*ssa.UnOp)
+		if !ok || ld.Op != token.MUL {
+			continue
+		}
+		fa, ok := ld.X.(*ssa.FieldAddr)
+		if !ok || NamedOf(fa.X.Type()) != s.vrT || fieldName(fa.X.Type(), fa.Field) != s.errField || !sameOrigin(fa.X, v) {
+			continue
+		}
+		if Precedes(c, ld) {
+			return true
+		}
+	}
+	return false
 }
 
 // ---------------------------------------------------------------------------
@@ -1289,6 +1406,8 @@ func (s *c16State) verifiedAt(v ssa.Value, at ssa.Instruction) (bool, string) {
 		if c.Callee() == vf && sameOrigin(c.Args()[0], v) {
 			if ok, w := SuccessDominates(c.Value(), at); ok {
 				return true, "Verify returned nil on it"
+			} else if s.errFieldNilAt(v, c.Value(), at) {
+				return true, "Verify ran on it and its " + s.errField + " field, which Verify sets whenever it fails, was found nil afterwards"
 			} else {
 				why = "Verify is called on it but " + w
 			}
@@ -1371,6 +1490,11 @@ func (s *c16State) ruleCallers() {
 			if uses := p.FuncValueUses(fn); len(uses) > 0 {
 				r.Undecided("J-index", FuncKey(fn)+"#callers", p.Pos(uses[0].Pos()), "the function is used as a value; its callers cannot be enumerated statically")
 			}
+			if fn.Signature.Recv() != nil {
+				if inv := p.InvokeSites(fn); len(inv) > 0 {
+					r.Undecided("J-index", FuncKey(fn)+"#callers", p.Pos(inv[0].Pos()), "the method may be reached through an interface; those callers are not checked")
+				}
+			}
 			callers := p.StaticCallers(fn)
 			if len(callers) == 0 {
 				r.OKTable("J-index", FuncKey(fn)+"#callers", p.Pos(fn.Pos()), "takes a *VerifyRequest but has no caller")
@@ -1405,8 +1529,8 @@ func (s *c16State) ruleReads() {
 	}
 	for i := 0; i < st.NumFields(); i++ {
 		f := st.Field(i)
-		if !f.Exported() {
-			continue
+		if !f.Exported() || isErrorType(f.Type()) {
+			continue // an error-typed field is the failure report: meaningful exactly when verification failed
 		}
 		for _, e := range s.ix.escapes[f.Name()] {
 			if !c16InPkg(e.Parent(), c16Pkg) && !IsTestSupportPkg(RelPkg(TopFunc(e.Parent()).Pkg.Pkg)) {
@@ -1422,6 +1546,10 @@ func (s *c16State) ruleReads() {
 			construct := FuncKey(fn) + "#reads:" + f.Name()
 			base := ld.X.(*ssa.FieldAddr).X
 			if pr, ok := originValue(base).(*ssa.Parameter); ok && s.isVRPtr(pr.Type()) {
+				if pr.Parent().Parent() != nil {
+					r.Undecided("J-index", construct, p.Pos(ld.Pos()), "read on the *VerifyRequest parameter of a function literal; its callers are not enumerated")
+					continue
+				}
 				r.OK("J-index", construct, p.Pos(ld.Pos()), "read on the *VerifyRequest parameter of "+FuncKey(pr.Parent())+" (every caller passes a verified request, see #passes-request-to)")
 				continue
 			}
@@ -1543,6 +1671,119 @@ func (s *c16State) ruleSignedTypes() {
 	}
 	if n == 0 {
 		r.Violation("J-index", key+"#verifier-result-honoured", p.Pos(fn.Pos()), "the schema dispatch contains no verifier call at all")
+	}
+}
+
+// ruleVerifyCallers: outside package jsonsign nobody calls Verify and then
+// ignores its verdict.
+func (s *c16State) ruleVerifyCallers() {
+	p, r := s.p, s.r
+	vf := s.verifyFn()
+	if uses := p.FuncValueUses(vf); len(uses) > 0 {
+		r.Undecided("J-index", FuncKey(vf)+"#callers", p.Pos(uses[0].Pos()), "Verify is used as a method value; its callers cannot be enumerated statically")
+	}
+	n := 0
+	for _, c := range p.StaticCallers(vf) {
+		if c16InPkg(c.Fn, c16Pkg) || IsTestSupportPkg(RelPkg(TopFunc(c.Fn).Pkg.Pkg)) {
+			continue
+		}
+		n++
+		construct := FuncKey(c.Fn) + "#verify-verdict-used"
+		site := p.Pos(c.Pos())
+		if c.Value() == nil {
+			r.Violation("J-index", construct, site, "Verify is started with go/defer: its verdict is lost")
+			continue
+		}
+		decides := func(v ssa.Value) bool {
+			if v.Referrers() == nil {
+				return false
+			}
+			for _, u := range nonDebug(*v.Referrers()) {
+				if bo, ok := u.(*ssa.BinOp); ok && (bo.Op == token.EQL || bo.Op == token.NEQ) && (IsNilConst(bo.X) || IsNilConst(bo.Y)) {
+					for _, w := range nonDebug(*bo.Referrers()) {
+						if _, isIf := w.(*ssa.If); isIf {
+							return true
+						}
+					}
+				}
+			}
+			return false
+		}
+		used := false
+		if ev, _, discarded := ErrValue(c.Value()); ev != nil && !discarded {
+			used = decides(ev)
+			for _, ri := range Returns(c.Fn) {
+				for _, v := range ri.Results {
+					if sameOrigin(v, ev) {
+						used = true
+					}
+				}
+			}
+		}
+		// the same verdict is also left in the request's mirrored error field
+		if s.errField != "" {
+			for _, ld := range s.ix.loads[s.errField] {
+				if ld.Parent() == c.Fn && sameOrigin(ld.X.(*ssa.FieldAddr).X, c.Args()[0]) && Precedes(c.Instr, ld) && decides(ld) {
+					used = true
+				}
+			}
+		}
+		r.Check(used, "J-index", construct, site, "the verdict of Verify (its error result, or the request's error field after the call) decides a branch or is returned",
+			"the verdict of Verify neither decides a branch nor is returned: a tampered document is treated like a verified one")
+	}
+	r.Analysed("verify_call_sites_outside_jsonsign", n)
+}
+
+// ---------------------------------------------------------------------------
+// J-verify: hash algorithm guard
+
+// ruleHashGuard: in VerifySignature, crypto.Hash.New (which panics for an
+// algorithm that is not linked in) is reached only through an edge on which the
+// packet's hash id was found equal to a constant.
+func (s *c16State) ruleHashGuard() {
+	p, r := s.p, s.r
+	fn := p.Func(c16Pkg, "VerifyRequest", "VerifySignature")
+	key := FuncKey(fn) + "#hash-algorithm-guard"
+	news := FindCalls(fn, false, func(c CallSite) bool { return c.Value() != nil && c.IsStatic("crypto", "Hash", "New") })
+	if len(news) == 0 {
+		r.OKTable("J-verify", key, p.Pos(fn.Pos()), "VerifySignature does not instantiate a hash from an attacker-chosen id")
+		return
+	}
+	for _, c := range news {
+		path := AccessPath(c.Args()[0])
+		establishes := func(d *ssa.BasicBlock, succ int) bool {
+			ifi, ok := c16Last(d).(*ssa.If)
+			if !ok {
+				return false
+			}
+			bo, ok := ifi.Cond.(*ssa.BinOp)
+			if !ok || (bo.Op != token.EQL && bo.Op != token.NEQ) {
+				return false
+			}
+			x, y := bo.X, bo.Y
+			if _, isC := x.(*ssa.Const); isC {
+				x, y = y, x
+			}
+			if _, ok := ConstInt(y); !ok || AccessPath(x) != path {
+				return false
+			}
+			return (bo.Op == token.EQL) == (succ == 0)
+		}
+		seen := map[*ssa.BasicBlock]bool{fn.Blocks[0]: true}
+		var walk func(b *ssa.BasicBlock)
+		walk = func(b *ssa.BasicBlock) {
+			for i, sc := range b.Succs {
+				if seen[sc] || establishes(b, i) {
+					continue
+				}
+				seen[sc] = true
+				walk(sc)
+			}
+		}
+		walk(fn.Blocks[0])
+		r.Check(!seen[c.Block()], "J-verify", key, p.Pos(c.Pos()),
+			"every path to Hash.New passes an edge on which the signature packet's hash id equals a constant (white list)",
+			"Hash.New is reachable without the signature packet's hash id having been found equal to an allowed constant: an id whose implementation is not linked in makes Hash.New panic, and weak digests are accepted")
 	}
 }
 
@@ -1787,12 +2028,38 @@ func (s *c16State) ruleSign() {
 						found = true
 					}
 				}
+				// alternative: the very string was right-trimmed of white space and then
+				// successfully json.Unmarshal'ed into a map, so it ends in '}'
+				if tc, ok := originValue(sl.X).(*ssa.Call); ok && !found {
+					c := CallSite{fn, tc}
+					if c.IsStatic("strings", "", "TrimRightFunc") || c.IsStatic("strings", "", "TrimSpace") || c.IsStatic("strings", "", "TrimRight") {
+						for _, u := range CallsIn(fn, false) {
+							if u.Value() == nil || !u.IsStatic("encoding/json", "", "Unmarshal") {
+								continue
+							}
+							src := originValue(u.Args()[0])
+							if cv, ok := src.(*ssa.Convert); ok {
+								src = originValue(cv.X)
+							}
+							cell, isCell := originValue(u.Args()[1]).(*ssa.Alloc)
+							if src != ssa.Value(tc) || !isCell {
+								continue
+							}
+							if _, isMap := cell.Type().(*types.Pointer).Elem().Underlying().(*types.Map); !isMap {
+								continue
+							}
+							if ok, _ := SuccessDominates(u.Value(), sl); ok {
+								found = true
+							}
+						}
+					}
+				}
 				if !found {
-					bad = "the byte cut off before signing is not known to be '}': the verifier re-appends '}' to the payload before parsing it"
+					bad = "the byte cut off before signing is not known to be '}' (no dominating test, and not a right-trimmed string that parsed as a JSON object): the verifier re-appends '}' to the payload before parsing it"
 				}
 			}
 		}
 		r.Check(bad == "", "J-sign", construct, p.Pos(d.Pos()),
-			"the signed string is the input minus its last byte, which a dominating test established to be '}' (the byte the verifier puts back)", bad)
+			"the signed string is the input minus its last byte, which is known to be '}' (dominating test, or right-trimmed text that parsed as a JSON object) - the byte the verifier puts back", bad)
 	}
 }
